@@ -86,7 +86,7 @@ pub fn after_step(w: &World, out: &StepOutcome, obs: &mut Obs) {
 
 /// Fault enumeration for one swap on (a clone of) the current world. Returns the number of fault points.
 pub fn enumerate(w: &World, long_in: bool, amount: u128, obs: &mut Obs) -> u32 {
-    let mut base = w.clone();
+    let mut base = w.fork();
     // the borrowing pre-update of the transaction, cleanly
     let (r, _, _, _) = base.run_tx(0, |w, sc| w.tx_swap_pre(sc));
     if r.is_err() {
@@ -94,7 +94,7 @@ pub fn enumerate(w: &World, long_in: bool, amount: u128, obs: &mut Obs) -> u32 {
         return 0;
     }
     let pre = base.market.st.clone();
-    let mut clean = base.clone();
+    let mut clean = base.fork();
     let (r0, _, n, _) = clean.run_tx(0, |w, sc| w.tx_swap_only(sc, long_in, amount));
     if r0.is_err() {
         obs.probe("enum_on_rejected_swap");
@@ -102,7 +102,7 @@ pub fn enumerate(w: &World, long_in: bool, amount: u128, obs: &mut Obs) -> u32 {
         obs.probe("enum_on_successful_swap");
     }
     for k in 1..=n {
-        let mut wk = base.clone();
+        let mut wk = base.fork();
         let (rk, _, _, fired) = wk.run_tx(k, |w, sc| w.tx_swap_only(sc, long_in, amount));
         let Some(fired) = fired else {
             // cannot happen for k <= n with a deterministic execution; count it so that it is visible
